@@ -1,6 +1,48 @@
 package main
 
+import (
+	"sort"
+	"time"
+)
+
 // extraChecks runs property-specific non-SMT checks (exhaustive evaluation of
 // closed facts, assembly obligations, call-graph obligations).
 func (cr *checkRun) extraChecks(verif string) {
+	cr.evalLemmaChecks()
+}
+
+// evalLemmaChecks decides `kind eval` / `kind exhaust` lemmas by running the
+// compiled spec functions over the whole (finite) domain.
+func (cr *checkRun) evalLemmaChecks() {
+	byPkg := map[string][]*Lemma{}
+	for _, l := range cr.e.contracts.Lemmas {
+		if !hasProp(l.Props, cr.prop) || l.Kind == "smt" {
+			continue
+		}
+		if l.Tier == "thorough" && cr.tier != "thorough" {
+			continue
+		}
+		byPkg[l.Pkg] = append(byPkg[l.Pkg], l)
+	}
+	var pkgs []string
+	for p := range byPkg {
+		pkgs = append(pkgs, p)
+	}
+	sort.Strings(pkgs)
+	var total int64
+	for _, p := range pkgs {
+		to := 120 * time.Second
+		if cr.tier == "thorough" {
+			to = 1800 * time.Second
+		}
+		obs := cr.e.evalLemmas(p, byPkg[p], to)
+		for _, o := range obs {
+			total += o.Cases
+			cr.lemmaN++
+		}
+		cr.obs = append(cr.obs, obs...)
+	}
+	if total > 0 {
+		cr.extraCov["exhaustively_evaluated_cases"] = total
+	}
 }
